@@ -63,6 +63,12 @@ impl<K> PendingIntents<K> {
     pub(crate) fn protects(&self, hash: &BlobHash) -> bool {
         self.by_hash.contains_key(hash)
     }
+
+    /// Number of in-flight intents per protected blob hash.
+    #[cfg(feature = "verif")]
+    pub(crate) fn protected(&self) -> Vec<(BlobHash, usize)> {
+        self.by_hash.iter().map(|(h, c)| (*h, *c)).collect()
+    }
 }
 
 impl<K> std::ops::Deref for PendingIntents<K> {
